@@ -548,9 +548,12 @@ impl ParsedValue {
         key_path: &KeyPath,
     ) -> Result<Self> {
         match self {
-            ParsedValue::Default | ParsedValue::ForeignKey(_) | ParsedValue::Literal(_) => {
-                Ok(self.clone())
-            }
+            ParsedValue::Default | ParsedValue::Literal(_) => Ok(self.clone()),
+            // an already resolved foreign key is part of the value: the arguments apply to it too
+            ParsedValue::ForeignKey(inner) => match inner.try_borrow().as_deref() {
+                Ok(ForeignKey::Set(value)) => value.populate(args, foreign_key, locale, key_path),
+                _ => Ok(self.clone()),
+            },
             ParsedValue::Variable { key, formatter } => match args.get(&*key.name) {
                 Some(value) => Ok(value.clone()),
                 None => Ok(ParsedValue::Variable {
